@@ -294,7 +294,7 @@ def framing_family(rnd, quick):
              {"m": "POST", "framing": {"k": "cl", "n": 300}}]
     bads = [{"m": "POST", "framing": {"k": c}} for c in BAD_HEAD] + \
            [{"m": "POST", "framing": {"k": "badchunk:" + c, "good": g}} for c in BAD_CHUNK for g in ([], [3])] + \
-           [{"m": "POST", "ver": 10, "framing": {"k": "te10"}}]
+           [{"m": m10, "ver": 10, "framing": {"k": "te10"}} for m10 in ("POST", "PUT", "GET")]
     scen = []
     for b in bads:
         for pos in (1, 2, 3):
@@ -310,7 +310,7 @@ def framing_family(rnd, quick):
         by_cls = {}
         for sc in scen:
             bad = next(r for r in sc if r.get("framing", {}).get("k") in BAD_HEAD or str(r.get("framing", {}).get("k", "")).startswith("badchunk") or r.get("framing", {}).get("k") == "te10")
-            by_cls.setdefault(json.dumps(bad["framing"], sort_keys=True), []).append(sc)
+            by_cls.setdefault(json.dumps(bad["framing"], sort_keys=True) + (bad["m"] if bad["framing"]["k"] == "te10" else ""), []).append(sc)
         scen = [rnd.choice(v) for _, v in sorted(by_cls.items())]
     scen += wf
     for reqs in scen:
